@@ -4,5 +4,9 @@ CHECKS = {
   "note": "Trusted: Lean kernel (propext, Classical.choice, Quot.sound), the 12-line bit-serial spec, the correspondence harness, Python int semantics of ^ & << >>. Default start value regenerated from the source and pinned to 0xFFFF by a kernel-checked theorem.",
   "technique": "Lean 4 proof (xor-linearity + induction) on a model tied to crc8404B by exhaustive step-table correspondence",
  },
+ "C01": {
+  "text": "Theorems fromBinary_toBinary / readBinary_writeBinary(_aes) (Props/C01.lean): for EVERY crypto plug-in whose MAC is 16 bytes (instantiated for the bundled AES adapter with no hypothesis left), every key, offset, list of plain components with distinct tags and declared length 1..payload length, and MAC check on or off, the model of from_binary/read_file returns exactly what the model of to_binary/write_file wrote (induction over the component list through parseDesc/parseEntry/parseEntries/readComps round-trip lemmas, no bound on sizes). The model is tied to the code by running writer and reader (stream and path I/O, text envelope included) on generated file objects on both sides and comparing bytes/fields, and the property is evaluated directly on the real code.",
+  "note": "Trusted: Lean kernel + 3 standard axioms; hand-written models Model/{Bf3,Text,Crypto,Aes}.lean tied by correspondence; Gen/* regenerated. Text envelope and CRLF translation: modelled and correspondence-checked (proved where Props/C01Text.lean says so). Locale codec of path I/O outside the model (UTF-8 forced).",
+ },
 }
 NOT_APPLICABLE = {}
